@@ -21,7 +21,7 @@ RULE = ('case = (key material, creation time, TZ) or (key, form) or (emitted fie
         'non-trivial = creation time at a 32-bit/sign boundary or with TZ != UTC, or an integer with leading zero bits, or a non-primary component, '
         'or a protected/unlocked/copied/re-imported form; distinct = distinct case descriptors')
 ASSUMPTIONS = ['hashlib SHA-1', 'vf.ref.keys public-key body encoder (validated: it reproduces the fingerprints that make every fixture self-signature verify)']
-MIN_COUNTERS = {'fpr_compared': 400, 'forms_compared': 60, 'emitted_fields': 30, 'generated_keys': 6, 'leading_zero_keys': 20, 'zero_leading_identifiers': 20}
+MIN_COUNTERS = {'fpr_compared': 400, 'forms_compared': 60, 'emitted_fields': 30, 'generated_keys': 6, 'leading_zero_keys': 20, 'zero_leading_identifiers': 20, 'issued_signature_kinds': 100}
 BUDGET = {'quick': (600, 1500), 'thorough': (1200, 3600)}
 
 TIMES = [0, 1, 2**31 - 1, 2**31, 2**31 + 1, 2**32 - 1, 1109484000, 1130648400, 1667714400, 946684799, 86399, 86400]
@@ -338,6 +338,34 @@ def _emitted(ctx, d, pgpy):
                 ctx.fail('emitted-issuer-differs', {'who': who, 'issuer': hx(RS.issuer(ps) or b''), 'issuer_fpr': hx(RS.issuer_fpr(ps) or b''), 'expected': hx(exp)})
             if s.signer != exp.hex().upper()[-16:] or s.signer_fingerprint != exp.hex().upper():
                 ctx.fail('signature-signer-attribute', {'who': who, 'signer': s.signer})
+    # every other kind of signature the key can issue - on itself and on OTHER people's keys (certifications, and revocations as their designated
+    # revoker): the issuer named is the key that made it, never the key it is about
+    owner = pool.pgpy_key('ed25519_2' if d['key'] != 'ed25519_2' else 'ed25519_3', sub='cv25519_1', uid='owner of another key', fresh=True)
+    with warnings.catch_warnings():
+        warnings.simplefilter('ignore')
+        owner |= owner.revoker(signer.pubkey)
+        osub = list(owner.subkeys.values())[0]
+        opub = owner.pubkey          # kept alive: a twin is only weakly referenced by its private half
+        issued = [('certify-own-uid', lambda: signer.certify(signer.userids[0])), ('certify-own-key', lambda: signer.certify(signer)),
+                  ('certify-other-uid', lambda: signer.certify(opub.userids[0])), ('certify-other-key', lambda: signer.certify(opub)),
+                  ('revoke-own-key', lambda: signer.revoke(signer)), ('revoke-own-subkey', lambda: signer.revoke(sub)), ('revoke-own-uid', lambda: signer.revoke(signer.userids[0])),
+                  ('designate-revoker', lambda: signer.revoker(owner.pubkey)),
+                  ('revoke-other-key-as-designated-revoker', lambda: signer.revoke(opub)), ('revoke-other-subkey-as-designated-revoker', lambda: signer.revoke(osub.pubkey if not osub.is_public else osub)),
+                  ('revoke-other-key-object-private', lambda: signer.revoke(owner)), ('bind', lambda: signer.bind(pool.pgpy_bare('ed25519_3'), usage={KeyFlags.Sign}))]
+        for what, f in issued:
+            try:
+                s = f()
+            except Exception as e:
+                ctx.outcome('issue_refused:%s:%s' % (what, type(e).__name__))
+                continue
+            ps = RS.parse_sig(wire.split(bytes(s))[0].body)
+            ctx.count('emitted_fields')
+            ctx.count('issued_signature_kinds')
+            ctx.count('evaluations')
+            if RS.issuer(ps) != exp_p[-8:] or RS.issuer_fpr(ps) != exp_p:
+                ctx.fail('emitted-issuer-differs', {'who': 'primary', 'signature': what, 'issuer': hx(RS.issuer(ps) or b''), 'issuer_fpr': hx(RS.issuer_fpr(ps) or b''), 'expected': hx(exp_p)})
+            if s.signer != exp_p.hex().upper()[-16:] or s.signer_fingerprint != exp_p.hex().upper():
+                ctx.fail('signature-signer-attribute', {'who': 'primary', 'signature': what, 'signer': s.signer})
     # intended-recipient subpackets: one per recipient, each with that recipient's fingerprint, in the order given (keys and bare fingerprints)
     rcp = [pool.pgpy_key('ed25519_3', uid='ir one').pubkey, pool.pgpy_key('rsa1024_2', uid='ir two').pubkey, pool.pgpy_key('ecdsa_p256_2', uid='ir three').pubkey]
     want_ir = [RK.fpr_of(pool.mat(n_)) for n_ in ('ed25519_3', 'rsa1024_2', 'ecdsa_p256_2')]
